@@ -4,7 +4,7 @@ from __future__ import annotations
 from hypothesis import strategies as st
 
 from vlib.run import Result, Sub, open_finding_ids
-from vlib.gen import families
+from vlib.gen import families, docs
 
 from picosvg.svg import SVG
 
@@ -43,7 +43,7 @@ def check_doc(case) -> Result:
     r = Result()
     nd = case.get("ndigits", 3)
     feat = case.get("feat", [])
-    r.classes = tuple(f for f in feat if f.startswith("family:")) + (f"ndigits={nd}",)
+    r.classes = tuple(f for f in feat if f.startswith("family:") or f.startswith("twin:") or f in ("rounding-boundary-subpath", "gradient-stroke")) + (f"ndigits={nd}",)
     try:
         o1 = _conv(case["svg"], nd)
     except Exception as e:
@@ -74,11 +74,34 @@ def check_doc(case) -> Result:
     return r
 
 
+def _paths(n, acc, in_defs=False):
+    for c in n["c"]:
+        if c["tag"] == "path" and not in_defs and "d" in c["a"]:
+            acc.append(c)
+        if not c["tag"].startswith("#"):
+            _paths(c, acc, in_defs or c["tag"] == "clipPath")
+    return acc
+
+
 @st.composite
 def c07_case(draw):
-    c = draw(families.any_document())
-    c["ndigits"] = draw(st.sampled_from([3, 3, 3, 0, 1, 2, 4, 5, 6]))
-    return c
+    root, feat = draw(families.any_document_ast())
+    nd = draw(st.sampled_from([3, 3, 3, 0, 1, 2, 4, 5, 6]))
+    if draw(st.integers(0, 3)) == 0:
+        # rounding-boundary subpath: a small closed square on whole-number coordinates whose last vertex misses the
+        # start by about one unit of the rounding grid (just below / at / just above it), so that "is this subpath
+        # closed already?" style decisions see a different picture before and after rounding
+        ps = _paths(root, [])
+        if ps:
+            filled = [p for p in ps if "url(" in (p["s"].get("fill") or p["a"].get("fill") or "")]
+            p = draw(st.sampled_from(filled if filled and draw(st.booleans()) else ps))
+            x, y, w = draw(st.integers(-5, 60)), draw(st.integers(-5, 60)), draw(st.integers(2, 9))
+            g = 10.0 ** -nd
+            dlt = draw(st.sampled_from([0.4, 0.6, 1.0, 1.1, 1.2, 1.4, 1.5, -1.1, -1.3, -1.4])) * g
+            q = (x + dlt, y) if draw(st.booleans()) else (x, y + dlt)
+            p["a"]["d"] += f" M{x},{y} h{w} v{w} L{q[0]:.{nd + 2}f},{q[1]:.{nd + 2}f}" + draw(st.sampled_from([" z", " Z", ""]))
+            feat = feat + ["rounding-boundary-subpath"]
+    return {"svg": docs.serialize(root, root=True), "feat": feat, "ndigits": nd}
 
 
 SUBCHECKS = {
